@@ -31,7 +31,7 @@
 (* so the outcome is compared exactly (a difference is reported as         *)
 (* informational drift; the property verdict stays InverseOK).             *)
 (***************************************************************************)
-EXTENDS Ops, Json
+EXTENDS Mech, Json
 CONSTANTS NMAX, SCALES, PMAX, ITERMAX, Variant, EMITMOD
 
 VARIABLES pc, n, sc, p, m, g, r, prev, pprev, res, iter, capped
@@ -40,19 +40,10 @@ vars == <<pc, n, sc, p, m, g, r, prev, pprev, res, iter, capped>>
 ScalesZero == {0}
 ScalesFew == {-2, 3}
 ScalesMore == {-7, -2, 0, 3, 11}
-Pow2Tab == [b \in 0..30 |-> 2 ^ b]
-Bits(k) == CHOOSE b \in 1..30 : Pow2Tab[b - 1] <= k /\ k < Pow2Tab[b]
-Ln2Mant == <<9,5,3,5,6,1,8,6,7,4,1,3,3,4,2,6>>          \* 6243314768165359, little-endian
 S == Mk(1, NatOf(n), sc)
-DTwo == Mk(1, Two, 0)
-\* LN_2 * 2^-b as an exact decimal, then `result.scale -= scale`
-GuessOf(k, scale) == LET e == 53 + Bits(k) IN Mk(1, NMul(Ln2Mant, NPow(<<5>>, e)), e - scale)
-NewtonStep(x) == DMul(x, DSub(DTwo, DMul(S, x)))
-\* with_prec: round half away from zero to wp digits when longer, otherwise the same value
-WithPrec(x, wp) == IF Digits(x) > wp THEN RoundToPrec(x, wp, "HalfUp") ELSE x
 FinalRound(x, mode) == IF Digits(x) > p THEN RoundToPrec(x, p, mode) ELSE x
 \* 64 + 2 * bit length of the working precision
-Cap == 64 + 2 * Bits(p + 2)
+Cap == InvCap(p)
 
 Init == /\ pc = "pick" /\ n = 1 /\ sc = 0 /\ p = 1 /\ m = "none"
         /\ g = DZero /\ r = DZero /\ prev = DZero /\ pprev = DZero /\ res = DZero /\ iter = 0 /\ capped = FALSE
@@ -63,11 +54,11 @@ Pick == /\ pc = "pick"
         /\ pc' = "guess"
         /\ UNCHANGED <<g, r, prev, pprev, res, iter, capped>>
 Guess == /\ pc = "guess"
-         /\ g' = GuessOf(n, sc) /\ r' = g'
+         /\ g' = InvGuess(NatOf(n), sc) /\ r' = g'
          /\ pc' = "first"
          /\ UNCHANGED <<n, sc, p, m, prev, pprev, res, iter, capped>>
 First == /\ pc = "first"
-         /\ r' = NewtonStep(r)
+         /\ r' = NewtonStep(S, r)
          /\ pc' = "loop"
          \* shipped: prev_result = 1, result = 0
          /\ prev' = (IF Variant = "shipped" THEN DOne ELSE DZero) /\ pprev' = DZero /\ res' = DZero
@@ -77,7 +68,7 @@ StepFixed ==
   /\ pc = "loop" /\ Variant = "fixed"
   /\ IF iter >= Cap
        THEN pc' = "round" /\ capped' = TRUE /\ UNCHANGED <<r, prev, pprev, iter>>
-       ELSE LET nr == WithPrec(NewtonStep(r), p + 2) IN
+       ELSE LET nr == WithPrec(NewtonStep(S, r), p + 2) IN
             /\ r' = nr /\ iter' = iter + 1 /\ capped' = capped
             /\ IF ValEq(nr, prev) \/ ValEq(nr, pprev)
                  THEN pc' = "round" /\ UNCHANGED <<prev, pprev>>
@@ -94,7 +85,7 @@ StepShipped ==
   /\ pc = "loop" /\ Variant = "shipped"
   /\ IF ValEq(prev, res) THEN pc' = "done" /\ UNCHANGED <<r, prev, res, iter, capped>>
      ELSE IF iter >= ITERMAX + 20 THEN pc' = "done" /\ capped' = TRUE /\ UNCHANGED <<r, prev, res, iter>>
-     ELSE LET nr == WithPrec(NewtonStep(r), p + 2) IN
+     ELSE LET nr == WithPrec(NewtonStep(S, r), p + 2) IN
           /\ prev' = res /\ r' = nr /\ res' = FinalRound(nr, m) /\ iter' = iter + 1
           /\ pc' = "loop" /\ capped' = capped
   /\ UNCHANGED <<n, sc, p, m, g, pprev>>
@@ -117,6 +108,9 @@ WorkingAccurate == (pc = "round" /\ ~capped) =>
   LET err == DAbs(DSub(DMul(S, r), DOne))
       u == Ulp(-(AdjInv(S) - (p + 2) + 1))
   IN DCmp(err, DMul(S, DAdd(u, u))) < 0
+
+\* the one-operator transcription in Mech (used inside the exp model) computes what the step-by-step machine computes
+RoutineAgrees == (pc = "done" /\ Variant = "fixed" /\ (n + p) % EMITMOD = 0) => ValEq(res, InvRoutine(S, p, m))
 
 Wire(x) == [s |-> x.s, l |-> IF x.d = <<>> THEN <<>> ELSE <<ToInt(x.d)>>, e |-> x.sc]
 Emit == (pc = "done" /\ (n + p) % EMITMOD = 0) =>
